@@ -50,6 +50,7 @@ var (
 	pp      **int
 	l, u    []int
 	m       map[string]int
+	mk      map[T]int
 	ch      chan int
 	f       func(int) int
 	g       func(int, int) int
